@@ -2,6 +2,7 @@ package q
 
 import (
 	"fmt"
+	"go/token"
 	"go/types"
 	"sort"
 	"strings"
@@ -631,6 +632,95 @@ func (la *LockAnalysis) GuardedBy(tf, lf string, exempt map[string]string, minSi
 	}
 	if n < minSites {
 		c.Fail("floor", tf, fmt.Sprintf("K8b: accesses of %s found (>= %d)", tf, minSites), "-", fmt.Sprintf("found %d", n))
+	}
+}
+
+// GuardedElems (K8b): the objects stored IN the guarded container tf (obtained through a call matching getSpec on
+// the container, e.g. the *big.Int handed out by LRUCache.Get) are shared too: every call that receives such an object
+// happens with lock lf held, and the object never leaves the function (returned, stored, captured) - a holder outside
+// the critical section would read or update it concurrently with the guarded updates.
+func (la *LockAnalysis) GuardedElems(tf, lf, getSpec string, minSites int) {
+	c := la.c
+	n := 0
+	for _, fn := range la.fns {
+		name := load.QualName(fn)
+		derived := map[ssa.Value]bool{}
+		var work []ssa.Value
+		for _, b := range fn.Blocks {
+			for _, ins := range b.Instrs {
+				ci, ok := ins.(*ssa.Call)
+				if !ok || !Callee(ci.Common()).Match(getSpec) {
+					continue
+				}
+				var recv ssa.Value
+				if ci.Common().IsInvoke() {
+					recv = ci.Common().Value
+				} else if len(ci.Common().Args) > 0 {
+					recv = ci.Common().Args[0]
+				}
+				u, ok := Resolve(recv).(*ssa.UnOp)
+				if !ok || u.Op != token.MUL {
+					continue
+				}
+				fa, ok := u.X.(*ssa.FieldAddr)
+				if !ok || typeField(fa) != tf {
+					continue
+				}
+				derived[ci] = true
+				work = append(work, ci)
+			}
+		}
+		for len(work) > 0 {
+			v := work[len(work)-1]
+			work = work[:len(work)-1]
+			refs := v.Referrers()
+			if refs == nil {
+				continue
+			}
+			for _, r := range *refs {
+				what := "element of " + tf + " is used with " + lf + " held and stays inside the critical section"
+				switch x := r.(type) {
+				case *ssa.Extract:
+					if x.Index == 0 && !derived[x] {
+						derived[x] = true
+						work = append(work, x)
+					}
+				case *ssa.TypeAssert, *ssa.ChangeType, *ssa.ChangeInterface, *ssa.Phi, *ssa.MakeInterface:
+					if xv := r.(ssa.Value); !derived[xv] {
+						derived[xv] = true
+						work = append(work, xv)
+					}
+				case *ssa.If, *ssa.BinOp, *ssa.DebugRef:
+				case ssa.CallInstruction:
+					if _, isDefer := x.(*ssa.Defer); isDefer {
+						n++
+						c.Sites++
+						c.Fail("K8b", name, what, c.At(x), "handed to a deferred call")
+						continue
+					}
+					if _, isGo := x.(*ssa.Go); isGo {
+						n++
+						c.Sites++
+						c.Fail("K8b", name, what, c.At(x), "handed to a goroutine")
+						continue
+					}
+					n++
+					c.Sites++
+					if _, ok := la.HeldAt(x)[lf]; ok {
+						c.OK("K8b", name, what, c.At(x), "call with the lock held")
+					} else {
+						c.Fail("K8b", name, what, c.At(x), "the lock is not held on every path to this use")
+					}
+				default:
+					n++
+					c.Sites++
+					c.Fail("K8b", name, what, c.At(r), fmt.Sprintf("the element leaves the critical section (%T)", r))
+				}
+			}
+		}
+	}
+	if n < minSites {
+		c.Fail("floor", tf, fmt.Sprintf("K8b: uses of elements of %s found (>= %d)", tf, minSites), "-", fmt.Sprintf("found %d", n))
 	}
 }
 
